@@ -1,4 +1,4 @@
-import CentrifugeVerif.Proofs.SubProtoInv
+import CentrifugeVerif.Proofs.SubProtoNT11
 import CentrifugeVerif.Model.SubProtoWitness
 /-!
 # C07 — join and leave events are paired and ordered
@@ -10,7 +10,11 @@ Proved for every reachable state (all labels, all interleavings, failures, timeo
   generation it is emitted for.  Hence no join and no leave is emitted for a subscribe attempt that
   failed or was rolled back (such an attempt never commits).
 
-The pairing / ordering half of the property is FALSE for the code as modelled; the three checked
+Proved for executions in which the 5 s unsubscribe wait gate never times out (`ReachableNT`):
+* `join_at_most_once`, `leave_at_most_once` — for every generation (= every subscription attempt that
+  reserved the channel) at most one join and at most one leave is ever published.
+
+The "exactly one, join first" half of the property is FALSE for the code as modelled; the three checked
 executions below are replayed on the implementation by the check (findings C07-1, C07-2, C07-3a):
 * `leave_can_precede_join` — [leave, join] for one subscription;
 * `leave_without_join` — a leave although no join was published;
@@ -40,6 +44,16 @@ emission the log is [commit, join] -/
 example : (run State.init [.spawn .csub 0 ⟨false, true⟩, .step 0 .ok, .step 0 .ok, .step 0 .ok, .step 0 .ok,
     .step 0 .ok, .step 0 .ok, .step 0 .ok, .step 0 .ok, .step 0 .ok, .step 0 .ok]).map (·.log) =
     some [.replyOk 0, .commit 0 1, .join 0 1] := by decide
+
+/-- (no wait-gate timeout) at most one join is ever published for a generation -/
+theorem join_at_most_once (s : State) (h : ReachableNT s) (ch : Chan) (g : Gen) :
+    List.count (Ev.join ch g) s.log ≤ 1 :=
+  (reachableNT_invAll s h).l6.J2 ch g
+
+/-- (no wait-gate timeout) at most one leave is ever published for a generation -/
+theorem leave_at_most_once (s : State) (h : ReachableNT s) (ch : Chan) (g : Gen) :
+    List.count (Ev.leave ch g) s.log ≤ 1 :=
+  (reachableNT_invAll s h).l6.L2 ch g
 
 /-
 `join_leave_paired` (full statement, false on the model and on the implementation):
